@@ -71,8 +71,9 @@ Proof. exact (sptensor_line D T d0 print 1%Z). Qed.
 (* ---------------------------------------------------------------- the LINE-SENSITIVE import model (Model/C16Lines.v) *)
 (* import_data reads the header and every sparse entry with readline() and the dense values / weights / factor entries with
    np.fromfile, which ignores line breaks. With the file as lines of tokens and that mixed reading modelled faithfully:
-   import (the lines export writes) = the object — for every kind, order >= 1, rank >= 1, every index base.
-   (A rank-0 Kruskal tensor is NOT re-imported: finding C16-N1, see C16_rank0_not_reimported below.) *)
+   import (the lines export writes) = the object — for every kind, order >= 1, EVERY rank (0 included: the empty weights line
+   and the empty row lines of the factors are read and dropped, /repo 20317ef repairing finding C16-N1; see
+   C16_rank0_reimported below), zero sizes included, every index base. *)
 Theorem C16_roundtrip_lines : forall (ofZ : Z -> D) (b : Z) (o : obj D), wf_obj D o -> wf_lines D o ->
   import_lines D T d0 parse ofZ b (export_lines D T d0 print b o) = Some o.
 Proof. exact (fun ofZ => roundtrip_lines D T d0 print parse ofZ parse_print). Qed.
@@ -140,7 +141,7 @@ Proof. exact export_spz_bridge. Qed.
 
 (* ---------------------------------------------------------------- from CHARACTERS to tokens (Model/C16Text.v) *)
 (* readline().strip().split(" ") and np.fromfile's white-space skipping as one pass over the characters of the file (blank,
-   CR, LF, pieces free of white space). However each line is padded with blanks before and after its tokens and whichever
+   CR, LF, tab / VT / FF, pieces free of white space). However each line is padded with blanks before and after its tokens and whichever
    line end (LF or CR LF) it carries, the token stream is that of the lines *)
 Theorem C16_tokenise : forall (T : Type) (f : list (list (token T) * style)),
   lex T (render T f) = to_stream T (map fst f).
@@ -151,6 +152,15 @@ Theorem C16_roundtrip_text : forall (D T : Type) (d0 : D) (print : D -> T) (pars
   wf_obj D o -> wf_lines D o -> length sty = length (export_lines D T d0 print b o) ->
   import_text D T d0 parse ofZ b (render T (combine (export_lines D T d0 print b o) sty)) = Some o.
 Proof. exact roundtrip_text. Qed.
+(* the same with TAB / VT / FF (atom AOws) mixed into the padding of every line: strip() drops them like blanks *)
+Theorem C16_tokenise_ws : forall (T : Type) (f : list (list (token T) * wstyle)),
+  lex T (render_ws T f) = to_stream T (map fst f).
+Proof. exact lex_render_ws. Qed.
+Theorem C16_roundtrip_text_ws : forall (D T : Type) (d0 : D) (print : D -> T) (parse : T -> D) (ofZ : Z -> D),
+  (forall v : D, parse (print v) = v) -> forall (b : Z) (o : obj D) (sty : list wstyle),
+  wf_obj D o -> wf_lines D o -> length sty = length (export_lines D T d0 print b o) ->
+  import_text D T d0 parse ofZ b (render_ws T (combine (export_lines D T d0 print b o) sty)) = Some o.
+Proof. exact roundtrip_text_ws. Qed.
 
 (* ---------------------------------------------------------------- ANY number format (Proofs/C16Fmt.v) *)
 (* import_data looks at a number text only through parse: parsing every number text of a file beforehand changes nothing *)
@@ -186,6 +196,8 @@ Print Assumptions C16_long_import_bridge.
 Print Assumptions C16_long_export_bridge.
 Print Assumptions C16_tokenise.
 Print Assumptions C16_roundtrip_text.
+Print Assumptions C16_tokenise_ws.
+Print Assumptions C16_roundtrip_text_ws.
 Print Assumptions C16_import_parse_natural.
 Print Assumptions C16_roundtrip_any_format.
 
@@ -248,14 +260,19 @@ Example C16_example_dense_lines :
   /\ zimport_lines 1 [[Word "tensor"]; [Int 2]; [Int 3]; [Num 10]; [Num 11]; [Num 12]]%Z = None.   (* order line <> number of sizes *)
 Proof. vm_compute. repeat split; reflexivity. Qed.
 
-(* finding C16-N1: a Kruskal tensor without components is written with an empty weights line that import never consumes *)
-Example C16_rank0_not_reimported :
+(* a Kruskal tensor WITHOUT components (finding C16-N1, repaired in /repo 20317ef): written with an empty weights line and
+   one empty line per factor row; import drops exactly those lines and returns the tensor. The lines dropped may hold
+   anything (second part); a factor with rows but no column in a file of rank 2 is rejected (third part) *)
+Example C16_rank0_reimported :
   let K := mkK (@nil Z) [[[]; []]; [[]; []; []]] in
   zexport_lines 1 (OKtensor K) =
     [[Word "ktensor"]; [Int 2]; [Int 2; Int 3]; [Int 0]; []; [Word "matrix"]; [Int 2]; [Int 2; Int 0]; []; [];
      [Word "matrix"]; [Int 2]; [Int 3; Int 0]; []; []; []]%Z
-  /\ zimport_lines 1 (zexport_lines 1 (OKtensor K)) = None.
-Proof. vm_compute. split; reflexivity. Qed.
+  /\ zimport_lines 1 (zexport_lines 1 (OKtensor K)) = Some (OKtensor K)
+  /\ zimport_lines 1 [[Word "ktensor"]; [Int 2]; [Int 2; Int 3]; [Int 0]; [Num 5; Word "x"]; [Word "matrix"]; [Int 2]; [Int 2; Int 0];
+                       [Num 1]; [Word "y"]; [Word "anything"]; [Int 2]; [Int 3; Int 0]; []; []; []]%Z = Some (OKtensor K)
+  /\ zimport_lines 1 [[Word "ktensor"]; [Int 1]; [Int 2]; [Int 2]; [Num 5; Num 6]; [Word "matrix"]; [Int 2]; [Int 2; Int 0]; []; []]%Z = None.
+Proof. vm_compute. repeat split; reflexivity. Qed.
 
 (* long modes: subscripts above 2^53 (not representable as doubles) travel exactly, with every index base *)
 Example C16_example_long :
@@ -278,6 +295,27 @@ Example C16_example_text :
                      ATok (Int 1); ALF; ATok (Int 2); ABlank; ATok (Int 3); ABlank; ATok (Num 7); ALF]%Z = None
   /\ zimport_text 1 [ATok (Word "tensor"); ALF; ATok (Int 1); ALF; ATok (Int 3); ALF;
                      ATok (Num 10); ABlank; ABlank; ABlank; ATok (Num 11); ALF; ABlank; ALF; ATok (Num 12)]%Z
+       = Some (OTensor (mkDense [3] [10; 11; 12]%Z)).
+Proof. vm_compute. repeat split; reflexivity. Qed.
+
+(* tab / VT / FF (AOws): dropped at the ends of a line, harmless next to a blank, white space among VALUES; but joining two
+   texts of a header / sparse-entry line they give ONE unreadable piece (int("2\t3") raises), alone between blanks an
+   unreadable piece, and attached to the type word inside the line another word ("sptensor\t x") *)
+Example C16_example_tabs :
+  let S := mkSp [2; 3] [[1; 2]] [7]%Z in
+  let body := [ATok (Int 2); ALF; ATok (Int 2); ABlank; ATok (Int 3); ALF; ATok (Int 1); ALF;
+               ATok (Int 2); ABlank; ATok (Int 3); ABlank; ATok (Num 7); ALF]%Z in
+  zimport_text 1 ([AOws; ATok (Word "sptensor"); AOws; ALF; ATok (Int 2); AOws; ABlank; ATok (Int 9); AOws; ATok (Int 9); ALF;
+                   ATok (Int 2); ABlank; AOws; ATok (Int 3); AOws; ALF; ATok (Int 1); ALF;
+                   ATok (Int 2); AOws; ABlank; AOws; ATok (Int 3); ABlank; ATok (Num 7); ALF])%Z = Some (OSptensor S)
+  /\ zimport_text 1 (ATok (Word "sptensor") :: AOws :: ABlank :: ATok (Word "x") :: ALF :: body) = None
+  /\ zimport_text 1 (ATok (Word "sptensor") :: ABlank :: AOws :: ATok (Word "x") :: ALF :: body) = Some (OSptensor S)
+  /\ zimport_text 1 [ATok (Word "sptensor"); ALF; ATok (Int 2); ALF; ATok (Int 2); AOws; ATok (Int 3); ALF;
+                     ATok (Int 1); ALF; ATok (Int 2); ABlank; ATok (Int 3); ABlank; ATok (Num 7); ALF]%Z = None
+  /\ zimport_text 1 [ATok (Word "sptensor"); ALF; ATok (Int 2); ALF; ATok (Int 2); ABlank; AOws; ABlank; ATok (Int 3); ALF;
+                     ATok (Int 1); ALF; ATok (Int 2); ABlank; ATok (Int 3); ABlank; ATok (Num 7); ALF]%Z = None
+  /\ zimport_text 1 [ATok (Word "tensor"); ALF; ATok (Int 1); ALF; ATok (Int 3); ALF;
+                     ATok (Num 10); AOws; ATok (Num 11); ABlank; AOws; ABlank; ATok (Num 12); AOws; ALF]%Z
        = Some (OTensor (mkDense [3] [10; 11; 12]%Z)).
 Proof. vm_compute. repeat split; reflexivity. Qed.
 
